@@ -320,8 +320,32 @@ def evaluate(case):
                         pass
                     del log.calls[:]
                     notes.add("failed_request_on_the_same_method_object_before")
+                if case.get("prior"):
+                    # a successful earlier request on the same method object: the same filters, another order
+                    pkw = {k: v for k, v in call_kw.items() if k != "_order_by"}
+                    pkw["_order_by"] = {"asc": "tb.id", "desc": "tb.id DESC", "n": "tb.n, tb.id"}[case["prior"]]
+                    try:
+                        m.list(conn, *[to_arg(M, c) for c in conds], **pkw)
+                    except Exception:   # noqa
+                        pass
+                    del log.calls[:]
+                    notes.add("earlier_request_with_other_order_on_the_same_method_object")
                 if entry == "list":
                     got = m.list(conn, *args, **call_kw)
+                elif entry == "all_interleaved":
+                    # the lazy result of all() is consumed while the same method object serves another request
+                    it = iter(m.all(conn, *args, **call_kw))
+                    head = []
+                    for x in it:
+                        head.append(x)
+                        break
+                    saved_calls = list(log.calls)
+                    m.list(conn, ("tb.id", ">=", -10**12))
+                    m.one_or_none(conn, ("tb.id", "=", -10**12 - 1))
+                    log.calls[:] = saved_calls
+                    got = head + list(it)
+                    entry = "all"
+                    notes.add("all_consumed_around_another_request")
                 elif entry == "all":
                     got = list(m.all(conn, *args, **call_kw))
                 elif entry == "one":
@@ -499,9 +523,10 @@ def st_case(draw, max_conds=4, with_kwargs=True):
             "order": draw(st.sampled_from([None, "asc", "desc"])), "order_in_ctor": draw(st.booleans()),
             "scalars": draw(st.integers(0, 3)) == 0,
             "entry": draw(st.sampled_from(["list", "list", "all", "one", "one_or_none", "T_list", "T_wrap_list", "T_wrap_list",
-                                           "T_one", "T_wrap_oon"])),
+                                           "T_one", "T_wrap_oon", "all_interleaved", "all_interleaved"])),
             "percent": draw(st.integers(0, 3)) == 0,
-            "poison": draw(st.none() | st.none() | st.tuples(st.integers(0, 3), st.integers(0, 2)).map(list))}
+            "poison": draw(st.none() | st.none() | st.tuples(st.integers(0, 3), st.integers(0, 2)).map(list)),
+            "prior": draw(st.sampled_from([None, None, "asc", "desc", "n"]))}
 
 
 def parts(tier):
